@@ -420,6 +420,9 @@ def early_probe(chk, t, names, rng, spec):
 		return True
 	i, acc = rng.choice(cands)
 	probe = rng.choice(["item-list", "item-tuple", "item-str", "row-attr", "repr-dots", "getattr", "item-slice-list", "setattr"])
+	probe = spec.get("force_probe") or probe
+	if spec.get("force_column") is not None and any(i == spec["force_column"] for i, _ in cands):
+		i, acc = next(c for c in cands if c[0] == spec["force_column"])
 	chk.judged("early-probe", ("early", probe))
 	ncols = len(names)
 	before = [list(c._underlying) for c in t.cols()]
@@ -559,6 +562,42 @@ def run_equal_label_rename(chk, spec):
 RUNNERS["equal_label_rename"] = run_equal_label_rename
 
 
+def run_rename_then_first_access(chk, spec):
+	"""every way of renaming, immediately followed by every ONE way of using an accessor - of the renamed column and of an untouched one - with nothing in between
+	that could refresh a name map"""
+	import random, warnings
+	rng = random.Random(7)
+	names = list(spec["names"])
+	with warnings.catch_warnings():
+		warnings.simplefilter("ignore")
+		t = build(names, 2)
+		if spec["touch_first"]:
+			call(dir, t)
+		how = spec["how"]
+		j = spec["renamed"]
+		new = "fresh name"
+		if how == "rename_column":
+			o = call(t.rename_column, names[j], new)
+		elif how == "rename_columns":
+			o = call(t.rename_columns, [names[j]], [new])
+		elif how == "rename_columns-chained":
+			o = call(t.rename_columns, [names[j]], ["step"])
+			o = call(t.rename_columns, ["step"], [new])
+		elif how == "rename_columns-two":
+			other = (j + 1) % len(names)
+			o = call(t.rename_columns, [names[j], names[other]], [new, names[other]])
+		else:
+			o = call(setattr, t.cols()[j], "name", new)
+		if not o.ok:
+			chk.skip("rename-refused")
+			return
+		names[j] = new
+		early_probe(chk, t, names, rng, {"force_probe": spec["probe"], "force_column": spec["target"], **spec})
+
+
+RUNNERS["rename_then_first_access"] = run_rename_then_first_access
+
+
 def run(chk):
 	recompute.add_cases(chk, "C17")
 	rng = chk.rng
@@ -591,6 +630,11 @@ def run(chk):
 		for how in ("rename_column", "rename_columns", "view"):
 			for touch_first in (False, True):
 				chk.case("equal_label_rename", {"pair": pair, "how": how, "touch_first": touch_first}, "equal-label-rename")
+	for how in ("rename_column", "rename_columns", "rename_columns-chained", "rename_columns-two", "handle"):
+		for probe in ("item-list", "item-tuple", "item-str", "row-attr", "repr-dots", "getattr", "item-slice-list", "setattr"):
+			for names, renamed, target in ((["a", "b", "c"], 1, 1), (["a", "b", "c"], 1, 0), (["a", "b", "c"], 0, 2), (["x y", "b"], 0, 1), (["a", "b"], 1, 1)):
+				for touch_first in (False, True):
+					chk.case("rename_then_first_access", {"how": how, "probe": probe, "names": names, "renamed": renamed, "target": target, "touch_first": touch_first}, "rename-then-first-access")
 	for first in ("nothing", "repr-named-vector", "repr-vector-named-like-a-method", "repr-unnamed-vector", "dir-vector", "vector-arithmetic", "repr-unnamed-table", "empty-table"):
 		chk.case("fresh_process", {"first": first}, "fresh-process")
 	for _ in range(420 if chk.quick() else 3000):
